@@ -200,7 +200,13 @@ def judge_rule(R, atoms, seq, tier, mols=None):
         if exp:
             R.nontrivial += 1
         try:
-            res = q.RunReactants(Chem.Mol(m))
+            arg = Chem.Mol(m)
+            before = (arg.GetNumAtoms(), Chem.MolToSmiles(arg))
+            res = q.RunReactants(arg)
+            if (arg.GetNumAtoms(), Chem.MolToSmiles(arg)) != before:
+                R.violation('run:callers-molecule-modified:' + sig,
+                            '%r on %s: the molecule object passed in was modified' % (text, smi),
+                            dict(wit, smiles=smi))
             gotp = sorted(ruleref.product_key(ps) for ps in res)
             cons = all(ruleref.element_counts(ps) == ruleref.element_counts([mh])
                        for ps in res)
